@@ -227,7 +227,7 @@ def run(prog, ctx):
     res.functions_analysed = sum(v["write_sites"] + v["read_sites"] for v in res.extra["families"].values())
     res.entry_points = ["%s::%s / %s::%s" % (specfmt.FAMILIES[f]["writer"] + specfmt.FAMILIES[f]["reader"]) for f in sorted(specfmt.FAMILIES)]
     # theta compressed form: the entry-count width the writer announces is the one the reader consumes (C12.N)
-    C.import_rules(res, prog, ctx, "C11.N", "C12", ("C12.N",), "compact theta entry-count width", 1)
+    C.import_rules(res, prog, ctx, "C11.N", "C12", ("C12.N", "C12.S"), "entry counts the writer announces vs the entries it emits", 3)
     res.explanation = ("co-simulation of the writer and reader I/O models extracted from MIR: the token sequence the writer emits in each abstract state is "
                        "consumed by the reader model, whose branches are evaluated on the preamble values actually written")
     res.not_decided = "semantic equality of the restored sketch (payload values and derived state)"
